@@ -43,7 +43,17 @@ fn iterate(mut it: TypeLengthValues<'_>, n_bytes: usize) -> (usize, bool, usize)
     let cap = n_bytes / 3 + 2;
     let mut items = 0;
     let mut acc = 0;
+    // the other ways of consuming the iterator must return normally too: size_hint before and after every item,
+    // and collect / count / last on copies (collect trusts size_hint: a wild lower bound aborts the process)
+    acc += it.size_hint().0.min(7);
+    if n_bytes <= 4096 {
+        let v: Vec<_> = it.clone().take(cap + 1).collect();
+        acc += v.len().min(3);
+        let direct: Vec<_> = it.clone().collect();
+        acc += direct.len().min(3) + it.clone().count().min(3) + it.clone().last().is_some() as usize + it.clone().nth(2).is_some() as usize;
+    }
     while let Some(x) = it.next() {
+        acc += it.size_hint().0.min(7);
         items += 1;
         match &x {
             Ok(t) => {
